@@ -1,4 +1,5 @@
 import BM.Proofs.CssClean
+import BM.Proofs.CssDelete
 /-
   A static analysis of Go-lite handler bodies and its soundness against the interpreter (C18).
 
@@ -38,6 +39,9 @@ inductive AV where
 structure ACtx where
   closedFns : List String
   closedRes : List String
+  /-- regexps (anchored or not) that consume nothing but inert characters: what `FindString` returns
+      is clean, and deleting their matches removes no hostile byte -/
+  inertRes : List String := []
 
 def cleanB (s : Bytes) : Bool := s.all fun c => !hostile c
 
@@ -58,6 +62,12 @@ def covOf (ρ : AEnv) : Expr → Option Target
     | .covS t => some t
     | _ => none
   | _ => none
+
+/-- the target the first argument of `strings.Split` vouches for: a variable, or
+    `strings.TrimSuffix(variable, clean literal)` -/
+def covArg (ρ : AEnv) : Expr → Option Target
+  | .call g [e, lit] => if g == "strings.TrimSuffix" && isSepLit lit then covOf ρ e else none
+  | e => covOf ρ e
 
 /-- the abstract value of an expression (arguments of calls must be variables) -/
 def aeval (A : ACtx) (ρ : AEnv) : Expr → AV
@@ -88,10 +98,39 @@ def aeval (A : ACtx) (ρ : AEnv) : Expr → AV
       if (f == "strings.Split" && seps.length == 1 || f == "multiSplit") && seps.all isSepLit then
         match covOf ρ e with
         | some t => .covL t
-        | none => .other
+        | none =>
+          if f == "strings.Split" then
+            match covArg ρ e with
+            | some t => .covL t
+            | none => .other
+          else .other
+      else if f == "strings.TrimSuffix" && seps.length == 1 && seps.all isSepLit then
+        match covOf ρ e with
+        | some t => .covS t
+        | none =>
+          match e with
+          | .reDelete r e' =>
+            if A.inertRes.contains r then
+              match covOf ρ e' with
+              | some t => .covS t
+              | none => .other
+            else .other
+          | _ => .other
       else .other
     | [] => .other
+  | .reDelete r e =>
+    if A.inertRes.contains r then
+      match covOf ρ e with
+      | some t => .covS t
+      | none => .other
+    else .other
   | _ => .other
+
+/-- `R.FindString(x) + lit == b`: then `b` is what an inert regexp found, followed by a clean literal -/
+def findEq (A : ACtx) (ρ : AEnv) (t : Target) (a b : Expr) : Bool :=
+  match a with
+  | .bin op2 (.reFind r _) (.str lit) => op2 == "+" && A.inertRes.contains r && cleanB lit && aeval A ρ b == .covS t
+  | _ => false
 
 /-- "if this boolean expression evaluates to true, the target is clean" -/
 def aimp (A : ACtx) (ρ : AEnv) (t : Target) : Expr → Bool
@@ -109,6 +148,7 @@ def aimp (A : ACtx) (ρ : AEnv) (t : Target) : Expr → Bool
   | .bin op a b =>
     if op == "&&" then aimp A ρ t a || aimp A ρ t b
     else if op == "||" then aimp A ρ t a && aimp A ρ t b
+    else if op == "==" then findEq A ρ t a b
     else false
   | _ => false
 
@@ -538,8 +578,59 @@ theorem AVsem_cleanL {A : ACtx} {tv : Targets} {v : Val} : AVsem A tv .cleanL v 
 theorem AVsem_funcs {A : ACtx} {tv : Targets} {v : Val} :
     AVsem A tv .funcs v ↔ ∃ fs, v = .funcs fs ∧ ∀ f ∈ fs, f ∈ A.closedFns := Iff.rfl
 
+theorem clean_of_trimSuffix (s suf : Bytes) (hsuf : Clean suf) (h : Clean (trimSuffix s suf)) : Clean s := by
+  unfold trimSuffix at h
+  split at h
+  · rename_i hs
+    unfold hasSuffix hasPrefix at hs
+    cases hst : stripPrefix? suf.reverse s.reverse with
+    | none => rw [hst] at hs; cases hs
+    | some rest =>
+      have heq := stripPrefix?_eq _ _ _ hst
+      have hs' : s = rest.reverse ++ suf := by
+        have := congrArg List.reverse heq
+        simpa using this
+      rw [hs'] at h ⊢
+      have : (rest.reverse ++ suf).length - suf.length = rest.reverse.length := by simp
+      rw [this, List.take_left'] at h
+      · exact clean_append.mpr ⟨h, hsuf⟩
+      · rfl
+  · exact h
+
+theorem evalArgs_two (c : Ctx) (env : Env) (a b : Expr) (k : Nat) (vs : List Val)
+    (h : evalArgs c k env [a, b] = some vs) :
+    ∃ va vb j, k = j + 2 ∧ evalE c (j + 1) env a = some va ∧ evalE c j env b = some vb ∧ vs = [va, vb] := by
+  cases k with
+  | zero => rw [evalArgs_zero] at h; cases h
+  | succ k =>
+    obtain ⟨va, vs', h1, h2, rfl⟩ := evalArgs_cons c k env _ _ vs h
+    cases k with
+    | zero => rw [evalArgs_zero] at h2; cases h2
+    | succ k =>
+      obtain ⟨vb, vs'', h3, h4, rfl⟩ := evalArgs_cons c k env _ _ vs' h2
+      have := evalArgs_length c env [] k vs'' h4
+      have : vs'' = [] := List.eq_nil_of_length_eq_zero (by simpa using this)
+      subst this
+      exact ⟨va, vb, k, rfl, h1, h3, rfl⟩
+
+theorem covArg_spec (ρ : AEnv) (e : Expr) (t : Target) (h : covArg ρ e = some t) (h0 : covOf ρ e = none) :
+    ∃ n lit, e = .call "strings.TrimSuffix" [.var n, lit] ∧ isSepLit lit = true ∧ ρ n = .covS t := by
+  unfold covArg at h
+  split at h
+  · rename_i g e2 lit
+    split at h
+    · rename_i hg
+      simp only [Bool.and_eq_true, beq_iff_eq] at hg
+      obtain ⟨rfl, hlit⟩ := hg
+      obtain ⟨n, rfl, hn⟩ := covOf_spec ρ e2 t h
+      exact ⟨n, lit, rfl, hlit, hn⟩
+    · cases h
+  · rw [h0] at h; cases h
+
 section sem
-variable (A : ACtx) (c : Ctx) (hlow : c.toLower = toLowerGo) (tv : Targets) (ρ : AEnv) (env : Env) (hR : Rel A tv ρ env)
+variable (A : ACtx) (c : Ctx) (hlow : c.toLower = toLowerGo)
+  (hdel : ∀ r ∈ A.inertRes, ∀ re, c.regex? r = some re → ∀ s, Clean (deleteAll re s) → Clean s)
+  (tv : Targets) (ρ : AEnv) (env : Env) (hR : Rel A tv ρ env)
 include hR
 
 /-- the variable `n` vouches for target `t`: it holds a string that covers it -/
@@ -655,7 +746,83 @@ theorem sem_multiSplit (n : String) (seps : List Expr) (hseps : seps.all isSepLi
       subst h
       exact ⟨_, rfl, fun hc => hcov (clean_of_multiSplit s l hl hc)⟩
 
-include hlow in
+theorem sem_trimSuffix (n : String) (litE : Expr) (hlit : isSepLit litE = true) (t : Target) (hn : ρ n = .covS t) (k : Nat)
+    (val : Val) (h : evalE c k env (.call "strings.TrimSuffix" [.var n, litE]) = some val) : AVsem A tv (.covS t) val := by
+  cases k with
+  | zero => rw [evalE_zero] at h; cases h
+  | succ k =>
+    rw [evalE] at h
+    cases hargs : evalArgs c k env [.var n, litE] with
+    | none => rw [hargs] at h; simp at h
+    | some vs =>
+      obtain ⟨v, l, hv, rfl, hlen, hl⟩ := evalArgs_var_lits c env n [litE] (by simp [hlit]) k vs hargs
+      obtain ⟨s, rfl, hcov⟩ := var_covS A tv ρ env hR n t hn v hv
+      match l, hlen with
+      | [suf], _ =>
+        rw [hargs] at h
+        simp at h
+        subst h
+        exact ⟨_, rfl, fun hc => hcov (clean_of_trimSuffix s suf (hl suf (by simp)).2 hc)⟩
+
+theorem sem_split_trimSuffix (n : String) (litE sepE : Expr) (hlit : isSepLit litE = true) (hsep : isSepLit sepE = true)
+    (t : Target) (hn : ρ n = .covS t) (k : Nat) (val : Val)
+    (h : evalE c k env (.call "strings.Split" [.call "strings.TrimSuffix" [.var n, litE], sepE]) = some val) :
+    AVsem A tv (.covL t) val := by
+  cases k with
+  | zero => rw [evalE_zero] at h; cases h
+  | succ k =>
+    rw [evalE] at h
+    cases hargs : evalArgs c k env [.call "strings.TrimSuffix" [.var n, litE], sepE] with
+    | none => rw [hargs] at h; simp at h
+    | some vs =>
+      obtain ⟨va, vb, j, rfl, h1, h2, rfl⟩ := evalArgs_two c env _ _ k vs hargs
+      obtain ⟨s, rfl, hcov⟩ := sem_trimSuffix A c tv ρ env hR n litE hlit t hn _ va h1
+      obtain ⟨sep, rfl, hsepne, hsepcl⟩ := isSepLit_spec sepE hsep
+      have := evalE_str c j env sep vb h2
+      subst this
+      rw [hargs] at h
+      simp at h
+      subst h
+      exact ⟨_, rfl, fun hc => hcov (clean_of_splitOn s sep hsepne hsepcl hc)⟩
+
+include hdel in
+theorem sem_reDelete (r : String) (hr : A.inertRes.contains r = true) (n : String) (t : Target) (hn : ρ n = .covS t)
+    (k : Nat) (val : Val) (h : evalE c k env (.reDelete r (.var n)) = some val) : AVsem A tv (.covS t) val := by
+  cases k with
+  | zero => rw [evalE_zero] at h; cases h
+  | succ k =>
+    rw [evalE] at h
+    split at h
+    · rename_i s re hs hre
+      have hv := evalE_var c k env n _ hs
+      obtain ⟨s', hs', hcov⟩ := var_covS A tv ρ env hR n t hn _ hv
+      cases hs'
+      simp only [Option.some.injEq] at h
+      subst h
+      exact ⟨_, rfl, fun hc => hcov (hdel r (List.contains_iff_mem.mp hr) re hre s hc)⟩
+    · cases h
+
+theorem sem_trimSuffix_gen (e1 litE : Expr) (hlit : isSepLit litE = true) (t : Target)
+    (harg : ∀ k v, evalE c k env e1 = some v → AVsem A tv (.covS t) v) (k : Nat) (val : Val)
+    (h : evalE c k env (.call "strings.TrimSuffix" [e1, litE]) = some val) : AVsem A tv (.covS t) val := by
+  cases k with
+  | zero => rw [evalE_zero] at h; cases h
+  | succ k =>
+    rw [evalE] at h
+    cases hargs : evalArgs c k env [e1, litE] with
+    | none => rw [hargs] at h; simp at h
+    | some vs =>
+      obtain ⟨va, vb, j, rfl, h1, h2, rfl⟩ := evalArgs_two c env _ _ k vs hargs
+      obtain ⟨s, rfl, hcov⟩ := harg _ va h1
+      obtain ⟨suf, rfl, _, hsufcl⟩ := isSepLit_spec litE hlit
+      have := evalE_str c j env suf vb h2
+      subst this
+      rw [hargs] at h
+      simp at h
+      subst h
+      exact ⟨_, rfl, fun hc => hcov (clean_of_trimSuffix s suf hsufcl hc)⟩
+
+include hlow hdel in
 /-- **the abstract value of an expression describes every value it can evaluate to** -/
 theorem aeval_sound (e : Expr) (k : Nat) (val : Val) (h : evalE c k env e = some val) :
     AVsem A tv (aeval A ρ e) val := by
@@ -734,7 +901,56 @@ theorem aeval_sound (e : Expr) (k : Nat) (val : Val) (h : evalE c k env e = some
           · have hf' : f = "multiSplit" := by simpa using hf
             subst hf'
             exact sem_multiSplit A c tv ρ env hR n seps hcond.2 t hn k val h
+        · split
+          · rename_i hf
+            have hf' : f = "strings.Split" := by simpa using hf
+            subst hf'
+            split
+            · rename_i hnone _ t ht
+              obtain ⟨n, lit, rfl, hlit, hn⟩ := covArg_spec ρ e1 t ht hnone
+              have hlen' : seps.length = 1 := by
+                rcases hcond.1 with ⟨_, hlen⟩ | hf
+                · simpa using hlen
+                · simp at hf
+              match seps, hlen', hcond.2 with
+              | [sepE], _, hs =>
+                exact sem_split_trimSuffix A c tv ρ env hR n lit sepE hlit (by simpa using hs) t hn k val h
+            · trivial
+          · trivial
+      · split
+        · rename_i hcond
+          simp only [Bool.and_eq_true, beq_iff_eq] at hcond
+          obtain ⟨⟨rfl, hlen⟩, hlits⟩ := hcond
+          split
+          · rename_i t ht
+            obtain ⟨n, rfl, hn⟩ := covOf_spec ρ e1 t ht
+            match seps, hlen, hlits with
+            | [litE], _, hs =>
+              exact sem_trimSuffix A c tv ρ env hR n litE (by simpa using hs) t hn k val h
+          · split
+            · rename_i r e' _hx
+              split
+              · rename_i hr
+                split
+                · rename_i t ht
+                  obtain ⟨n, rfl, hn⟩ := covOf_spec ρ e' t ht
+                  match seps, hlen, hlits with
+                  | [litE], _, hs =>
+                    exact sem_trimSuffix_gen A c tv ρ env hR _ litE (by simpa using hs) t
+                      (fun k' v hv => sem_reDelete A c hdel tv ρ env hR r hr n t hn k' v hv) k val h
+                · trivial
+              · trivial
+            · trivial
         · trivial
+    · trivial
+  | reDelete r e1 =>
+    simp only [aeval]
+    split
+    · rename_i hr
+      split
+      · rename_i t ht
+        obtain ⟨n, rfl, hn⟩ := covOf_spec ρ e1 t ht
+        exact sem_reDelete A c hdel tv ρ env hR r hr n t hn k val h
       · trivial
     · trivial
   | bool b =>
@@ -752,6 +968,8 @@ end sem
 structure SoundCtx (A : ACtx) (c : Ctx) : Prop where
   lower : c.toLower = toLowerGo
   res : ∀ r ∈ A.closedRes, ∀ re, c.regex? r = some re → ∀ s, Re.matchBytes re s = true → Clean s
+  inertDel : ∀ r ∈ A.inertRes, ∀ re, c.regex? r = some re → ∀ s, Clean (deleteAll re s) → Clean s
+  inertFind : ∀ r ∈ A.inertRes, ∀ re, c.regex? r = some re → ∀ s, Clean (findString re s)
 
 /-- the handlers named closed return true on clean values only, up to interpreter fuel `k` -/
 def CallsOK (A : ACtx) (c : Ctx) (k : Nat) : Prop :=
@@ -760,21 +978,39 @@ def CallsOK (A : ACtx) (c : Ctx) (k : Nat) : Prop :=
 theorem CallsOK.mono {A : ACtx} {c : Ctx} {k k' : Nat} (h : CallsOK A c k) (hk : k' ≤ k) : CallsOK A c k' :=
   fun f hf j hj s hs => h f hf j (Nat.le_trans hj hk) s hs
 
-theorem evalArgs_two (c : Ctx) (env : Env) (a b : Expr) (k : Nat) (vs : List Val)
-    (h : evalArgs c k env [a, b] = some vs) :
-    ∃ va vb j, k = j + 2 ∧ evalE c (j + 1) env a = some va ∧ evalE c j env b = some vb ∧ vs = [va, vb] := by
+/-- the value of `R.FindString(x) + lit` -/
+theorem evalE_findPlus (c : Ctx) (k : Nat) (env : Env) (r : String) (x : Expr) (lit : Bytes) (va : Val)
+    (h : evalE c k env (.bin "+" (.reFind r x) (.str lit)) = some va) :
+    ∃ sx re, c.regex? r = some re ∧ va = .str (findString re sx ++ lit) := by
   cases k with
-  | zero => rw [evalArgs_zero] at h; cases h
+  | zero => rw [evalE_zero] at h; cases h
   | succ k =>
-    obtain ⟨va, vs', h1, h2, rfl⟩ := evalArgs_cons c k env _ _ vs h
-    cases k with
-    | zero => rw [evalArgs_zero] at h2; cases h2
-    | succ k =>
-      obtain ⟨vb, vs'', h3, h4, rfl⟩ := evalArgs_cons c k env _ _ vs' h2
-      have := evalArgs_length c env [] k vs'' h4
-      have : vs'' = [] := List.eq_nil_of_length_eq_zero (by simpa using this)
-      subst this
-      exact ⟨va, vb, k, rfl, h1, h3, rfl⟩
+    rw [evalE] at h
+    have h1 : (("+" : String) == "&&") = false := by decide
+    have h2 : (("+" : String) == "||") = false := by decide
+    have h3 : (("+" : String) == "==") = false := by decide
+    have h4 : (("+" : String) == "!=") = false := by decide
+    simp only [h1, h2, Bool.false_eq_true, ↓reduceIte] at h
+    cases hf : evalE c k env (.reFind r x) with
+    | none => rw [hf] at h; simp at h
+    | some vf =>
+      cases hl : evalE c k env (.str lit) with
+      | none => rw [hf, hl] at h; cases vf <;> simp at h
+      | some vl =>
+        have := evalE_str c k env lit vl hl
+        subst this
+        rw [hf, hl] at h
+        cases k with
+        | zero => rw [evalE_zero] at hf; cases hf
+        | succ k' =>
+          rw [evalE] at hf
+          split at hf
+          · rename_i sx re hsx hre
+            simp only [Option.some.injEq] at hf
+            subst hf
+            simp only [h3, h4, Bool.false_eq_true, ↓reduceIte, beq_self_eq_true, Option.some.injEq] at h
+            exact ⟨sx, re, hre, h.symm⟩
+          · cases hf
 
 theorem aimp_sound (A : ACtx) (c : Ctx) (hS : SoundCtx A c) (tv : Targets) (ρ : AEnv) (env : Env) (hR : Rel A tv ρ env)
     (t : Target) : ∀ (k : Nat) (e : Expr), CallsOK A c (k - 1) → aimp A ρ t e = true →
@@ -809,8 +1045,8 @@ theorem aimp_sound (A : ACtx) (c : Ctx) (hS : SoundCtx A c) (tv : Targets) (ρ :
       | some vs =>
         obtain ⟨va, vb, j, rfl, h1, h2, rfl⟩ := evalArgs_two c env a b k vs hargs
         rw [hargs] at h
-        have sa := aeval_sound A c hS.lower tv ρ env hR a _ va h1
-        have sb := aeval_sound A c hS.lower tv ρ env hR b _ vb h2
+        have sa := aeval_sound A c hS.lower hS.inertDel tv ρ env hR a _ va h1
+        have sb := aeval_sound A c hS.lower hS.inertDel tv ρ env hR b _ vb h2
         split at ha
         · rename_i hf
           have hf' : f = "in" := by simpa using hf
@@ -845,7 +1081,7 @@ theorem aimp_sound (A : ACtx) (c : Ctx) (hS : SoundCtx A c) (tv : Targets) (ρ :
     rw [evalE] at h
     split at h
     · rename_i s hs
-      have sa := aeval_sound A c hS.lower tv ρ env hR a _ _ hs
+      have sa := aeval_sound A c hS.lower hS.inertDel tv ρ env hR a _ _ hs
       rw [ha.1] at sa
       obtain ⟨s', hs', hcov⟩ := sa
       cases hs'
@@ -863,7 +1099,7 @@ theorem aimp_sound (A : ACtx) (c : Ctx) (hS : SoundCtx A c) (tv : Targets) (ρ :
     rw [evalE] at h
     split at h
     · rename_i s re hs hre
-      have sa := aeval_sound A c hS.lower tv ρ env hR a _ _ hs
+      have sa := aeval_sound A c hS.lower hS.inertDel tv ρ env hR a _ _ hs
       rw [ha.1] at sa
       obtain ⟨s', hs', hcov⟩ := sa
       cases hs'
@@ -899,7 +1135,40 @@ theorem aimp_sound (A : ACtx) (c : Ctx) (hS : SoundCtx A c) (tv : Targets) (ρ :
         · rename_i hta; exact ih a hC' ha.1 hta
         · exact ih b hC' ha.2 h
         · cases h
-      · cases ha
+      · rename_i hop1 hop2
+        have hand : (op == "&&") = false := by simpa using hop1
+        have hor : (op == "||") = false := by simpa using hop2
+        by_cases heq : (op == "==") = true
+        · have : op = "==" := by simpa using heq
+          subst this
+          simp only [beq_self_eq_true, ↓reduceIte] at ha
+          -- `R.FindString(x) + lit == b`
+          unfold findEq at ha
+          split at ha
+          · rename_i op2 r x lit
+            simp only [Bool.and_eq_true, beq_iff_eq] at ha
+            obtain ⟨⟨⟨rfl, hr⟩, hlit⟩, hb⟩ := ha
+            simp only [hand, hor, Bool.false_eq_true, ↓reduceIte] at h
+            cases hva : evalE c k env (.bin "+" (.reFind r x) (.str lit)) with
+            | none => rw [hva] at h; simp at h
+            | some va =>
+              cases hvb : evalE c k env b with
+              | none => rw [hva, hvb] at h; cases va <;> simp at h
+              | some vb =>
+                have sb := aeval_sound A c hS.lower hS.inertDel tv ρ env hR b _ vb hvb
+                rw [hb] at sb
+                obtain ⟨y, rfl, hcov⟩ := sb
+                obtain ⟨sx, re, hre, rfl⟩ := evalE_findPlus c k env r x lit va hva
+                rw [hva, hvb] at h
+                have h5 : (("==" : String) == "==") = true := by decide
+                simp only [h5, ↓reduceIte, Option.some.injEq, Val.bool.injEq, beq_iff_eq] at h
+                apply hcov
+                rw [← h]
+                exact clean_append.mpr ⟨hS.inertFind r (List.contains_iff_mem.mp hr) re hre sx,
+                  (cleanB_iff lit).mp hlit⟩
+          · cases ha
+        · have heq' : (op == "==") = false := by simpa using heq
+          simp only [heq', Bool.false_eq_true, ↓reduceIte] at ha
   | _ => simp [aimp] at ha
 
 /-! ### what a statement list can change -/
@@ -1638,7 +1907,7 @@ theorem facts_sound (A : ACtx) (c : Ctx) (hS : SoundCtx A c) (tv : Targets) (ρ 
         | some vs =>
           obtain ⟨va, vb, j, rfl, h1, h2, rfl⟩ := evalArgs_two c env a b k vs hargs
           rw [hargs] at h
-          have sb := aeval_sound A c hS.lower tv ρ env hR b _ vb h2
+          have sb := aeval_sound A c hS.lower hS.inertDel tv ρ env hR b _ vb h2
           split
           · rename_i hf
             have hf' : f = "in" := by simpa using hf
@@ -1963,7 +2232,7 @@ theorem accOK_sound (A : ACtx) (c : Ctx) (hS : SoundCtx A c) (tv : Targets) (ρ 
               obtain ⟨va, vx, j, rfl, h1, h2, rfl⟩ := evalArgs_two c env (.var a) x k' vs hargs
               rw [hargs] at hv
               have hga := evalE_var c (j + 1) env a va h1
-              have sx := aeval_sound A c hS.lower tv ρ env hR x _ vx h2
+              have sx := aeval_sound A c hS.lower hS.inertDel tv ρ env hR x _ vx h2
               split at hok
               · rename_i hcond
                 simp only [Bool.and_eq_true, beq_iff_eq] at hcond
@@ -2202,7 +2471,7 @@ theorem exec_sound (A : ACtx) (c : Ctx) (hS : SoundCtx A c) : ∀ (k : Nat), Cal
           simp only at h
           split at h
           · rename_i v hv
-            have hsem := aeval_sound A c hS.lower tv ρ env hR e k v hv
+            have hsem := aeval_sound A c hS.lower hS.inertDel tv ρ env hR e k v hv
             exact ihE af rest _ _ _ est estX inLoop endsBody tv env' ctl hac (hR.set n _ v hsem) (hΦ.set n v) hest hestX h
           · cases h
         | ret e =>
@@ -2334,7 +2603,7 @@ theorem exec_sound (A : ACtx) (c : Ctx) (hS : SoundCtx A c) : ∀ (k : Nat), Cal
           simp only at h
           split at h
           · rename_i l hl
-            have hsem := aeval_sound A c hS.lower tv ρ env hR e k _ hl
+            have hsem := aeval_sound A c hS.lower hS.inertDel tv ρ env hR e k _ hl
             split at hac
             · rename_i hcov
               rw [hcov] at hsem
